@@ -80,7 +80,10 @@ def expected_result(g, exp):
 WRONG = {"i": [{"f": "0x1.8p+1"}, "str", {"special": "none"}, [1], {"special": "object"}],
          "r": ["str", {"special": "none"}, [1.0], {"special": "object"}],
          "s": [3, {"f": "0x1p+0"}, {"special": "none"}, [1], {"special": "object"}],
-         "a": [3, {"f": "0x1p+0"}, {"special": "none"}, {"special": "object"}]}
+         # a sequence is expected: other kinds of object, and sequences with one element that cannot be converted
+         # (first / middle / last position: the conversion buffer exists by then and must be released exactly once)
+         "a": [3, {"f": "0x1p+0"}, {"special": "none"}, {"special": "object"}, ["x", 2, 3], [1, "x", 3], [1, 2, "x"], [1, {"special": "none"}, 3],
+               [[1], 2], [1, 2, {"special": "object"}]]}
 
 
 def arg_class(p, T):
